@@ -24,7 +24,7 @@ ASSUMPTIONS = [
 ]
 MONITORS = ("lost-bytes accounting: {path: bytes} of the workspace before vs after against the set of intact cache objects; audit-hook trail of "
             "removals as witness; shadow model of the link table for clean-up")
-REQUIRED_COUNTERS = ["crlf_variants_of_tracked_text", "legacy_scans_through_the_same_state", "file_where_a_tree_goes_cases", "own_data_under_two_linked_names", "workspaces_with_stray_ignore_file", "second_attempts_after_refusal", "single_file_targets", "inode_only_replacements", "workspaces_with_dangling_symlink", "cleanups_after_checkout", "large_file_directories", "dir_links_with_duplicate_basenames", "damaged_cache_objects", "symlinked_link_records", "checkouts", "uncached_files_in_workspace", "prompt_errors", "declining_prompt_calls", "normal_returns", "kind_swap_cases",
+REQUIRED_COUNTERS = ["crlf_variants_of_tracked_text", "legacy_scans_through_the_same_state", "file_where_a_tree_goes_cases", "output_removed_cases", "own_data_under_two_linked_names", "workspaces_with_stray_ignore_file", "second_attempts_after_refusal", "single_file_targets", "inode_only_replacements", "workspaces_with_dangling_symlink", "cleanups_after_checkout", "large_file_directories", "dir_links_with_duplicate_basenames", "damaged_cache_objects", "symlinked_link_records", "checkouts", "uncached_files_in_workspace", "prompt_errors", "declining_prompt_calls", "normal_returns", "kind_swap_cases",
                      "link_histories", "unused_link_queries", "remove_links_calls", "relink_cases", "store/local", "store/base",
                      "link/copy", "link/hardlink", "link/symlink"]
 
@@ -418,6 +418,62 @@ def run_shard(ctx):
             env.reset_staging()
             ctx.drop(d)
 
+        def output_removed(case=case, rng=rng):
+            """checkout with no target object (the output is gone from the project): the workspace holds the tree, part of which is not in the cache"""
+            d = ctx.fresh("n")
+            cls = rng.choice(["local", "local", "base"])
+            link = rng.choice(["copy", "hardlink", "symlink"])
+            state = env.mk_state(d, os.path.join(d, "tmp")) if rng.random() < 0.5 else None
+            odb = env.odb_of_class(cls, os.path.join(d, "cache"), state=state, type=[link])
+            T, _e = gen.tree(rng, depth=rng.randrange(0, 3), fanout=3, odd=0.2, min_files=2, empty_dirs=False)
+            tobj = colab.populate(odb, d, T, "tsrc")
+            ws = os.path.join(d, "ws", "out")
+            os.makedirs(os.path.dirname(ws))
+            gen.write_tree(ws, T)  # the user's own copies of the data
+            # some file objects are not in the cache (never pushed / collected): those workspace files are the only copies
+            gone = set()
+            for k_, v_ in sorted(T.items()):
+                if v_ and rng.random() < 0.4:
+                    op_ = odb.oid_to_path(H("md5", v_))
+                    if os.path.exists(op_):
+                        os.chmod(op_, 0o644)
+                        os.unlink(op_)
+                    gone.add(H("md5", v_))
+            before = walk_files(ws)
+            intact = colab.cache_intact_digests(os.path.join(d, "cache"))
+            uncached = {k_ for k_, v_ in before.items() if v_ is not None and H("md5", v_) not in intact}
+            res.evaluated()
+            res.count("checkouts")
+            res.count("output_removed_cases")
+            res.count(f"store/{cls}")
+            res.count(f"link/{link}")
+            res.count("uncached_files_in_workspace", len(uncached))
+            if uncached:
+                res.nontrivial("output-removed", sorted(T.items()), sorted(gone), cls, link)
+            outcome = "returned"
+            try:
+                checkout(ws, fs, None, odb, force=False, state=state, prompt=(lambda m: res.count("declining_prompt_calls") or False) if rng.random() < 0.5 else None)
+                res.count("normal_returns")
+            except PromptError:
+                outcome = "PromptError"
+                res.count("prompt_errors")
+            except (CheckoutError, LinkError) as e:
+                outcome = type(e).__name__
+            cfg = {"output_removed": True, "store": cls, "link": link, "outcome": outcome, "uncached": sorted("/".join(k_) for k_ in uncached)}
+            res.sample(cfg)
+            after = walk_files(ws) if os.path.lexists(ws) else {}
+            lost = [k_ for k_ in uncached if after.get(k_) != before[k_]]
+            if lost:
+                res.violation(f"uncached-user-file-removed/no-target-object/{outcome}",
+                              f"{'/'.join(lost[0])} holds bytes that are not in the cache and was removed by a non-forced checkout without a target ({outcome})",
+                              case=case, detail=cfg)
+            elif uncached and outcome == "returned":
+                res.violation("uncached-file-in-the-way-not-refused/no-target-object", "checkout returned normally", case=case, detail=cfg)
+            if state is not None:
+                state.close()
+            env.reset_staging()
+            ctx.drop(d)
+
         def links(case=case, rng=rng):
             d = ctx.fresh("l")
             root = os.path.join(d, "repo")
@@ -560,6 +616,8 @@ def run_shard(ctx):
             ctx.guard(case, links)
         elif case % 24 == 7:
             ctx.guard(case, file_where_tree_goes)
+        elif case % 24 == 13:
+            ctx.guard(case, output_removed)
         elif case % 6 == 1:
             ctx.guard(case, co_single)
         else:
